@@ -21,7 +21,6 @@ from __future__ import annotations
 
 import itertools
 import json
-import signal
 
 from automata.fa.dfa import DFA
 
@@ -50,22 +49,9 @@ FUEL = 30000
 TIMEOUT_S = 10
 
 
-class _Timeout(Exception):
-    pass
-
-
-def _alarm(signum, frame):
-    raise _Timeout()
-
-
 def guarded(f):
     """Real call with a wall-clock guard (a broken traversal may not terminate)."""
-    signal.signal(signal.SIGALRM, _alarm)
-    signal.setitimer(signal.ITIMER_REAL, TIMEOUT_S)
-    try:
-        return call(f)
-    finally:
-        signal.setitimer(signal.ITIMER_REAL, 0)
+    return L.guarded(f, TIMEOUT_S)
 
 
 def kwargs_of(p: dict) -> dict:
